@@ -87,7 +87,8 @@ Definition impls_of (S : schema) (i : name) : list name :=
 
 (** ** Executable document *)
 Inductive cond := CLit (b : bool) | CVar (v : name).           (* the [if:] argument *)
-Inductive directive := DSkip (c : cond) | DInclude (c : cond) | DOther.
+Inductive directive := DSkip (c : cond) (dp vp : pos) | DInclude (c : cond) (dp vp : pos) | DOther.
+   (* [dp] is the directive's Position(), [vp] the Position() of its [if:] value *)
 
 Inductive selection :=
 | SField (alias : option name) (n : name) (p : pos) (dirs : list directive) (sub : list selection)
@@ -108,8 +109,10 @@ Definition sel_dirs (s : selection) : list directive :=
 (** a field node as the executor holds it (a pointer to ast.Field): name, Position(), sub-selections *)
 Record fnode := { fn_name : name; fn_pos : pos; fn_sub : list selection }.
 
-(** coerced variable values, as far as @skip/@include look at them *)
-Definition env := list (name * bool).
+(** coerced variable values, as far as @skip/@include look at them: [Some b] a boolean, [None]
+    an explicit null (possible for a nullable variable with a default); a variable that is not
+    listed has no value *)
+Definition env := list (name * option bool).
 
 (** ** Resolver-outcome tree *)
 Inductive outcome :=
